@@ -16,6 +16,7 @@ pub const PROPS: &[&str] = &["C01", "C02", "C03", "C04", "C05", "C06", "C07", "C
 pub enum Post {
     None,
     Crash(CrashSpec),
+    Mutate(crate::mutate::MutSpec),
 }
 
 #[derive(Clone, Debug, Serialize, Deserialize)]
@@ -43,6 +44,9 @@ pub fn budget(prop: &str, thorough: bool) -> Budget {
         "C08" => (1500, 30_000),
         "C11" => (2500, 80_000),
         "C14" => (2500, 80_000),
+        "C13" => (3000, 100_000),
+        "C09" => (200, 2_400),
+        "C10" => (200, 2_400),
         _ => (1000, 20_000),
     };
     Budget { runs: if thorough { t } else { q } }
@@ -107,6 +111,14 @@ pub fn profile(prop: &str, rng: &mut Rng) -> Profile {
             p.faults = if rng.chance(40) { FaultMode::WriteSync } else { FaultMode::None };
             p.eager_worker_pct = 25;
         }
+        "C09" | "C10" => {
+            p.nops = (4, 25);
+            p.restarts = rng.chance(40);
+            p.cache = CacheMode::Any;
+            p.big_payloads = false;
+            p.purge_heavy = rng.chance(30);
+            p.small_chunks_pct = 70;
+        }
         "C14" => {
             p.nops = (8, 50);
             p.race_restart = true;
@@ -156,6 +168,24 @@ pub fn profile(prop: &str, rng: &mut Rng) -> Profile {
 
 pub fn make_spec(prop: &str, run_seed: u64) -> Spec {
     let mut rng = Rng::new(run_seed ^ 0x5EED_0F_9806_F11E);
+    if prop == "C13" {
+        let n = rng.range(2, 4);
+        let mut scripts = vec![];
+        for _ in 0..n {
+            let rounds = rng.range(1, 4);
+            let mut sc = vec![];
+            for _ in 0..rounds {
+                sc.push(crate::ops::CAction { dump: rng.chance(25), hold: rng.below(6) as u8, write: rng.chance(60), pause: rng.below(8) as u8 });
+            }
+            scripts.push(sc);
+        }
+        let mut cfg = Cfg::plain();
+        cfg.chunk_max_records = Some(*rng.pick(&[1usize, 2, 3, 1000]));
+        let mut policy = gen::gen_policy(&mut rng);
+        policy.p_switch = *rng.pick(&[10u8, 30, 60, 90]);
+        let sched = crate::ops::Sched::Prng { seed: rng.next(), policy };
+        return Spec { prop: prop.to_string(), run_seed, cfg, ops: vec![crate::ops::Op::Contenders { scripts }], sched, faults: vec![], flush_batch: 1024, lower_term_reappend: false };
+    }
     let p = profile(prop, &mut rng);
     gen::gen_spec(prop, run_seed, &p)
 }
@@ -201,7 +231,7 @@ pub fn analyse(prop: &str, spec: &Spec, out: &RunOut, thorough: bool, only: Opti
             };
             let only_c = match only {
                 Some(Post::Crash(c)) => Some(c),
-                Some(Post::None) => return,
+                Some(_) => return,
                 None => None,
             };
             let vs = crash::check_run(prop, out, &|k| cfg_at(out, spec, k), &cc, only_c, &mut rng, img_dir, &mut an.crash);
@@ -250,6 +280,30 @@ pub fn analyse(prop: &str, spec: &Spec, out: &RunOut, thorough: bool, only: Opti
                 }
             }
         }
+        "C09" | "C10" => {
+            let only_m = match only {
+                Some(Post::Mutate(m)) => Some(m),
+                Some(_) => return,
+                None => None,
+            };
+            let mut st = crate::mutate::MutStats::default();
+            for (v, m) in crate::mutate::check_run(prop, spec, out, thorough, only_m, &mut rng, img_dir, &mut st) {
+                an.witnesses.push((v, Post::Mutate(m)));
+            }
+            an.crash.images += st.mutations;
+            an.crash.shapes.extend(st.shapes.iter().copied());
+            an.add("source_images", st.images);
+            an.add("mutated_images_opened_with_real_open", st.mutations);
+            for (k, v) in &st.by_kind {
+                an.add(&format!("mutation_{k}"), *v);
+            }
+            an.add("outcome_refused_or_read_error", st.refused);
+            an.add("outcome_opened_with_exact_state", st.opened_equal);
+            an.add("flips_classified_eof", st.eof_class);
+            an.add("flips_classified_detectable", st.detectable_class);
+            an.add("files_untouched_checks", st.untouched_checks);
+            an.add("continuations_after_recovery", st.continuations);
+        }
         "C14" => {
             if only.map(|o| *o != Post::None).unwrap_or(false) {
                 return;
@@ -281,6 +335,9 @@ pub fn analyse(prop: &str, spec: &Spec, out: &RunOut, thorough: bool, only: Opti
 
 /// Execute a spec for a property with its oracles.
 pub fn execute(prop: &str, spec: &Spec, root: &str) -> RunOut {
+    if prop == "C13" {
+        return exec::run_contenders(spec, root);
+    }
     let or = oracles(prop);
     exec::run_spec(spec, &or, root)
 }
